@@ -48,25 +48,25 @@ type obsPacked struct {
 }
 
 type Obs struct {
-	ID      string     `json:"id"`
-	G       tlaGrammar `json:"g"`
-	Outcome string     `json:"outcome"` // ok | error | panic | crash | timeout
-	Diag    string     `json:"diag"`
-	States  [][][]int  `json:"states"` // states[i] = item set of state i (items [rule, dot], 1-based rule)
+	ID      string      `json:"id"`
+	G       tlaGrammar  `json:"g"`
+	Outcome string      `json:"outcome"` // ok | error | panic | crash | timeout
+	Diag    string      `json:"diag"`
+	States  [][][]int   `json:"states"` // states[i] = item set of state i (items [rule, dot], 1-based rule)
 	Gotos   [][]obsGoto `json:"gotos"`
-	LA      []obsLA    `json:"la"`
-	Warn    []obsWarn  `json:"warn"`
-	NWarn   int        `json:"nwarn"`
-	Syms    []string   `json:"syms"`  // column -> abstract name
-	IsNT    []bool     `json:"isnt"`  // column -> nonterminal?
-	NTerm   int        `json:"nterm"` // len(VtSet)
-	Table   [][]int    `json:"table"`
-	ErrCode int        `json:"errcode"`
-	AccCode int        `json:"acccode"`
-	Packed  obsPacked  `json:"packed"`
-	Extra   [][]string `json:"extra"` // additional inputs (names) for the driver-level check: random sentences and mutations
-	Text    string     `json:"-"`
-	Stdout  string     `json:"-"`
+	LA      []obsLA     `json:"la"`
+	Warn    []obsWarn   `json:"warn"`
+	NWarn   int         `json:"nwarn"`
+	Syms    []string    `json:"syms"`  // column -> abstract name
+	IsNT    []bool      `json:"isnt"`  // column -> nonterminal?
+	NTerm   int         `json:"nterm"` // len(VtSet)
+	Table   [][]int     `json:"table"`
+	ErrCode int         `json:"errcode"`
+	AccCode int         `json:"acccode"`
+	Packed  obsPacked   `json:"packed"`
+	Extra   [][]string  `json:"extra"` // additional inputs (names) for the driver-level check: random sentences and mutations
+	Text    string      `json:"-"`
+	Stdout  string      `json:"-"`
 }
 
 var captureMu sync.Mutex
@@ -124,11 +124,11 @@ func resetFlags() {
 // buildInProcess runs ParseAndBuild under capture with a deadline.
 func buildInProcess(text string) (w *parser.Walker, outcome, diag, stdout string) {
 	type res struct {
-		w       *parser.Walker
-		err     error
-		out     string
-		perr    interface{}
-		stack   string
+		w     *parser.Walker
+		err   error
+		out   string
+		perr  interface{}
+		stack string
 	}
 	ch := make(chan res, 1)
 	go func() {
@@ -176,6 +176,7 @@ func emptyObs() *Obs {
 	o.States, o.Gotos, o.LA, o.Warn = [][][]int{}, [][]obsGoto{}, []obsLA{}, []obsWarn{}
 	o.Syms, o.IsNT, o.Table = []string{}, []bool{}, [][]int{}
 	o.Packed = obsPacked{Act: []int{}, Off: []int{}, Chk: []int{}, ADef: []int{}, GDef: []int{}}
+	o.Extra = [][]string{}
 	return o
 }
 
